@@ -550,7 +550,10 @@ pub fn c15_histories() -> Vec<History> {
             name: "long-keys-fragmented-manifest".to_string(),
             cfgs: cfgs(&["T300"]),
             keys: vec![vec![b'c'; 4500], vec![b'e'; 4500], vec![b'f'; 4500]],
-            ops: vec![Put(0, 0), Flush, Put(1, 0), Flush, Put(2, 0), Flush, Put(0, 0), Flush, Put(1, 0), Flush, Put(2, 0), Flush, Del(0)],
+            // (each edit is ~9 kB, so the fourth one — the table with the newest version of the first
+            // key, never overwritten afterwards — is the record split at offset 32768: losing it
+            // changes a read)
+            ops: vec![Put(0, 0), Flush, Put(1, 0), Flush, Put(2, 0), Flush, Put(0, 0), Flush, Put(1, 0), Flush, Put(2, 0), Flush, Put(1, 0), Flush, Put(2, 0)],
         },
         // tombstones above older values on deeper levels, rotation left an unflushed WAL
         mk("tombstones+rotation", "M2n", vec![Put(0, 0), Put(1, 0), Put(2, 0), Del(0), Del(1), Put(0, 0), Del(2), Put(1, 0), Reopen(0), Del(0), Put(2, 0)]),
@@ -576,7 +579,14 @@ pub fn c15(tier: &str) -> ! {
         });
         let built = slot.lock().unwrap().take();
         match (o, built) {
-            (Some(crate::run::Outcome::Ok), Some(Ok(img))) => imgs.push(img),
+            (Some(crate::run::Outcome::Ok), Some(Ok(img))) => {
+                if std::env::var("RDBCHECK_VERBOSE_PANICS").is_ok() {
+                    for (p, b) in img.image.iter() {
+                        eprintln!("[image {}] {} {} bytes", img.name, p.display(), b.len());
+                    }
+                }
+                imgs.push(img)
+            }
             (o, r) => rep.machinery.push(format!("building image {} failed: {:?} {:?}", h.name, o, r.map(|r| r.err()))),
         }
     }
